@@ -298,6 +298,29 @@ func Run(r *ev.Run, tier string) (evals, nontrivial int64) {
 		}
 		report("TSS clients, relayers with several chains, chain name", RoundTrip(h.C, ctx, dst, "tss+relayers"), nil)
 	}
+	// --- TSS clients that went through governance: one upgraded to another TSS account, one obtained by toggling a tendermint client
+	{
+		ctx := h.Ctx(now)
+		acc, acc2 := world.NewAccount("tssA"), world.NewAccount("tssB")
+		if err := k.CreateClient(ctx, "tss-up", &tsstypes.ClientState{TssAddress: acc.Acc.String(), Pubkey: []byte{1}, PartPubkeys: [][]byte{{2}}, Threshold: 1}, &tsstypes.ConsensusState{}); err != nil {
+			panic(err)
+		}
+		if err := k.UpgradeClient(ctx, "tss-up", &tsstypes.ClientState{TssAddress: acc2.Acc.String(), Pubkey: []byte{3}, PartPubkeys: [][]byte{{4}}, Threshold: 1}, &tsstypes.ConsensusState{}); err != nil {
+			panic(err)
+		}
+		report("TSS client upgraded by governance", RoundTrip(h.C, ctx, dst, "tss/upgraded"), nil)
+		nontrivial++
+	}
+	{
+		ctx := h.Ctx(now)
+		vs := c07.MakeSet([]int{0, 1}, []int64{1, 1})
+		h.CreateClientNamed(ctx, "tm-toggled", "tmchain-3", 7, now.Add(-time.Minute), vs, []byte("app hash of a tendermint chain..."))
+		if err := k.ToggleClient(ctx, "tm-toggled", &tsstypes.ClientState{TssAddress: world.NewAccount("tssC").Acc.String(), Pubkey: []byte{5}, PartPubkeys: [][]byte{{6}}, Threshold: 1}, &tsstypes.ConsensusState{}); err != nil {
+			panic(err)
+		}
+		report("tendermint client toggled to TSS by governance", RoundTrip(h.C, ctx, dst, "tss/toggled"), nil)
+		nontrivial++
+	}
 	// --- packet traffic: states of scripted relay histories on both chains (every prefix of the history)
 	{
 		// three chains, so that every chain holds commitments, receipts and acknowledgements on two paths
